@@ -1,0 +1,9 @@
+//go:build verif
+
+package container
+
+// VerifBacking exposes the backing array and the read/write indices of the ring
+// buffer to the verification harness (build tag verif only).
+func (r *ringBuffer[V]) VerifBacking() (buf []V, rd, wr int) {
+	return r.buf, r.r, r.w
+}
